@@ -7,8 +7,8 @@ CHECKS = {
  "C01": dict(level="model_checking", technique="explicit-state BFS over command histories (SEQ) on the real code vs reference model",
    text="Every history up to the depth bound over a 35-40 letter alphabet (set/set-safe/get/get-safe/remove/increment/keys/snapshot on 3 keys incl. a $$ key) is executed on the real node; every reply and every reached state is compared with a plain map. "+SEQ,
    note="Trusts: the harness start-up sequence (world::Node::start mirrors main.rs::start_db), the logical clock hook, set-safe acceptance taken from the implementation (C02 judges it). Values without newline/';'.", design="7/C01"),
- "C02": dict(level="model_checking", technique="explicit-state BFS over version arguments (SEQ) + exhaustive preemption-bounded interleaving exploration (ILV)",
-   text="Sequential: all histories up to the bound over set / set-safe with versions {-1,cur-1,cur,cur+1,1000} / increment / remove / snapshot on two keys, oracle = acceptance rule of the statement + strictly growing reported version.",
+ "C02": dict(level="model_checking", technique="explicit-state BFS over version arguments (SEQ) + exhaustive preemption-bounded interleaving exploration of real client threads under a controlled scheduler (ILV)",
+   text="Sequential: all histories up to the bound over set / set-safe with versions {-1,cur-1,cur,cur+1,1000} / increment / remove / snapshot on two keys, oracle = acceptance rule of the statement + strictly growing reported version. Concurrent: every pair of single commands from {set, set-safe base, increment, get-safe, remove} (2 clients), 2x2 and 3x1 programs, all schedules within the preemption bound; oracle = brute-force linearizability against the implementation run sequentially in every merge order + at most one success per base version + no lost increment.",
    note="Version -1 is the unversioned sentinel; tombstoned keys: either outcome accepted (statement ambiguous).", design="7/C02"),
  "C06": dict(level="model_checking", technique="explicit-state BFS over write/snapshot/restart histories (SEQ) with a restart-on-copy oracle in every snapshot state",
    text="All histories up to the bound over set (values of 0,1,2 and 40 bytes incl. multi-byte UTF-8) / set-safe / remove / increment / snapshot false|true with every write order of up to 3 dirty keys / restart; after every snapshot the directory is copied and the real start-up + load_all_dbs must return exactly the reference snapshot state (live keys, values, versions, id, strategy) of every snapshotted database incl. an untouched arbiter database.",
@@ -28,6 +28,15 @@ CHECKS = {
  "C15": dict(level="model_checking", technique="explicit-state BFS over register/ack events on the real pending-operation functions vs a set-based reference",
    text="All sequences up to the bound of register(op,node) / ack(op,node) / foreign ack over 2-3 operations x 3 nodes (acks before registration, duplicates, never-targeted names) on the real register_pending_opp, the real `ack` command, get_pending_opp_copy and get_oplog_state; after every event pending set, both counters and the reported pending count must equal the reference (op -> targeted, acked). Plus a no-merge pass over all histories of one operation.",
    note="Each (operation, member) is registered at most once, as the fan-out loop does.", design="7/C15"),
+ "C03": dict(level="model_checking", technique="exhaustive preemption-bounded interleaving exploration (ILV) of real subscriber / writer threads under a controlled scheduler",
+   text="14-15 scenarios of 2-4 sessions (subscriber under observation, a second subscriber doing watch/unwatch/unwatch-all/disconnect, one or two writers doing set, accepted and refused set-safe, increment, remove, writes to another key) run as real threads; every schedule with at most the stated number of preemptions (scheduling point = every shim RwLock acquisition + the apply->replicate yield). Oracle on the call/return history and the subscriber's message stream: each committed write inside the subscription window notified exactly once (paired changed/changed-version), overlapping writes 0-1 times, refused writes and foreign keys never, a probe write after the run is delivered iff the subscriber never unsubscribed, highest-versioned notification = final value.",
+   note="Notification loss through a full 100-slot channel is outside the bound. Own scheduler (not loom/shuttle): see DESIGN 4.2.", design="7/C03"),
+ "C17": dict(level="model_checking", technique="explicit-state BFS over connect/use-db/disconnect events (SEQ) + preemption-bounded interleavings of two sessions (ILV)",
+   text="All sequences up to the bound of connect / use-db t / use-db u / use-db wrong token / use-db user token / disconnect over 3 sessions and 2 databases; after every event $connections (key and internal counter) of both databases must equal the number of open sessions selecting them, a disconnect never fails, and a watcher of $connections sees each change. ILV: two sessions selecting/leaving concurrently, final key = sessions still selecting.",
+   note="In-process sessions run the same unwatch-all + Client::left pair every transport runs at connection end; HTTP's own end-of-request path is covered by C20.", design="7/C17"),
+ "C19": dict(level="model_checking", technique="explicit-state BFS over plain/versioned writes on a newer database (SEQ) + preemption-bounded interleavings of two writers with a watcher (ILV)",
+   text="All sequences up to the bound of set / set-safe (version below, at, above current) / remove / increment / snapshot on two keys of a newer-strategy database with a watcher: no write refused, the value read back is the one just written, version strictly grows, the watcher gets exactly one notification per stored change. ILV: every pair of single writes (and 2+1 in thorough) from two clients: no refusal, final value was written, version grew, the watcher's highest-versioned notification equals the final value.",
+   note="Every write carries a unique value. Replica agreement is decided by the cluster checks. Versions a client can present are >= -1.", design="7/C19"),
 }
 
 def main():
